@@ -1,0 +1,51 @@
+//! Verification hooks, compiled only with `--cfg dandavison_delta_verif`.
+//!
+//! Re-exports the pieces an in-process deterministic-simulation harness drives
+//! (delta's sources are linked as a library through a shadow manifest) and, with
+//! `--cfg dandavison_delta_verif_shuttle`, the seam that replaces the scan of
+//! the process table by a scenario-chosen answer.
+
+pub use crate::cli::{Call, Opt};
+pub use crate::config::Config;
+pub use crate::delta::delta;
+pub use crate::env::DeltaEnv;
+pub use crate::subcommands::show_config::show_config;
+pub use crate::utils::bat::assets::load_highlighting_assets;
+pub use crate::utils::process::{
+    calling_process, set_calling_process, start_determining_calling_process_in_thread,
+    CallingProcess,
+};
+
+#[cfg(dandavison_delta_verif_shuttle)]
+pub use crate::utils::process::verif_reset_caller_info_source;
+
+#[cfg(dandavison_delta_verif_shuttle)]
+mod sched {
+    use crate::utils::process::{describe_calling_process, CallingProcess, ProcessArgs};
+
+    // Plain std primitives: harness plumbing, deliberately invisible to the scheduler.
+    static GUESS: std::sync::Mutex<Option<(Vec<String>, usize)>> = std::sync::Mutex::new(None);
+
+    /// What the simulated process-table scan will find (a command line, or nothing),
+    /// and how many scheduling points the scan takes.
+    pub fn set_sim_guess(args: Option<Vec<String>>, yields: usize) {
+        *GUESS.lock().unwrap() = args.map(|a| (a, yields)).or(Some((vec![], yields)));
+    }
+
+    pub fn sim_guess() -> CallingProcess {
+        let (args, yields) = GUESS.lock().unwrap().clone().unwrap_or((vec![], 0));
+        for _ in 0..yields {
+            shuttle::thread::sleep(std::time::Duration::from_millis(0));
+        }
+        if args.is_empty() {
+            return CallingProcess::None;
+        }
+        match describe_calling_process(&args) {
+            ProcessArgs::Args(result) => result,
+            _ => CallingProcess::None,
+        }
+    }
+}
+
+#[cfg(dandavison_delta_verif_shuttle)]
+pub use sched::{set_sim_guess, sim_guess};
